@@ -61,6 +61,7 @@ static int prompted, set_item_called;
 static sigjmp_buf bail;
 static int budget_exceeded;
 static int used_msg_nosignal;
+static int blocked_forever;
 
 static int choose(int n) {
   if (n <= 1) return 0;
@@ -178,11 +179,22 @@ ssize_t __wrap_read(int fd, void *buf, size_t len) {
     if (choose(2) == 1) { errno = ECONNRESET; return -1; }
     return 0; /* orderly shutdown by the peer */
   }
-  errno = EAGAIN;
-  return -1;
+  /* the module's socket is a blocking one: a read while the peer stays silent never returns */
+  blocked_forever = 1;
+  siglongjmp(bail, 1);
 }
 
-ssize_t __wrap_recv(int fd, void *buf, size_t len, int flags) { (void)flags; return __wrap_read(fd, buf, len); }
+ssize_t __wrap_recv(int fd, void *buf, size_t len, int flags) {
+  if (fd == FAKE_FD && (flags & MSG_DONTWAIT) && C.cut - rpos <= 0 && !C.end_close) { step(); errno = EAGAIN; return -1; }
+  if (fd == FAKE_FD && (flags & MSG_WAITALL) && len > 0 && (size_t)(C.cut - rpos) < len && !C.end_close) {
+    /* MSG_WAITALL waits for the whole request; the peer delivers less and then stays silent */
+    step();
+    rpos = C.cut;
+    blocked_forever = 1;
+    siglongjmp(bail, 1);
+  }
+  return __wrap_read(fd, buf, len);
+}
 
 int __wrap_close(int fd) {
   if (fd == FAKE_FD) { sock_fd_open = 0; return 0; }
@@ -266,7 +278,7 @@ static int put_part(unsigned char *out, const char *s) {
 static int run_once(void) {
   static pam_handle_t h;
   npoints = 0; steps = 0; vtime = 0; wlen = 0; rpos = 0; sigpipe_raised = 0; sock_fd_open = 0;
-  prompted = 0; set_item_called = 0; budget_exceeded = 0;
+  prompted = 0; set_item_called = 0; budget_exceeded = 0; blocked_forever = 0;
   int ret = -12345;
   errno = C.init_errno;
   if (sigsetjmp(bail, 0) == 0) {
@@ -275,6 +287,10 @@ static int run_once(void) {
   n_exec++;
   int deviations = 0;
   for (int i = 0; i < npoints; i++) if (taken[i]) deviations++;
+  if (blocked_forever) {
+    report("blocks-forever", "the module sits in a blocking read()/recv() on its socket while the agent stays silent: no select() timeout covers the wait, the call never returns");
+    return ret;
+  }
   if (budget_exceeded) {
     report("no-return-within-step-budget", "the module did not return within 6000 environment calls (livelock)");
     return ret;
